@@ -15,10 +15,15 @@
    (f) ANY sequence of announcements, repeats included (a peer heard before announcing the same instance again, possibly
        with another TTL): get_known_services equals a simple abstract view, instance name -> (instance as first advertised,
        expiry of the LAST reception).
-   PARTIAL: a re-announcement that CHANGES the instance's data (e.g. a superset of the addresses, which the store merges in
-   HashMap order) is covered by the DISC slice only. Property theorems only. *)
+   (g) ANY sequence of record batches for names directly below the service, re-announcements that CHANGE an instance's data
+       included (more addresses, other ports, other text): the store equals an abstract view instance label -> association
+       list (record, expiry) in which a record equal to one already held takes the new expiry in place and a new record is
+       appended; get_known_services is from_records over the unexpired records of each entry. (The implementation merges the
+       text of two DIFFERENT TXT records under one owner in HashMap iteration order, which the list-based model fixes as
+       insertion order; the property does not speak about that case.)
+   Property theorems only. *)
 Require Import SD.Base SD.Codes SD.Header SD.HeaderProofs SD.Name SD.RData SD.Packet SD.RoundTrip SD.TextApi SD.TextApiProofs
-  SD.Store SD.DiscoveryProofs SD.DiscoveryStore SD.Reannounce.
+  SD.Store SD.DiscoveryProofs SD.DiscoveryStore SD.Reannounce SD.ReannounceGen.
 
 Theorem C15_discovered : forall i service inst me ttl h recs,
   let full := inst :: service in
@@ -63,6 +68,37 @@ Example C15_view_is : forall st p, abs_insert st p =
   | (q, e) :: t => if bytes_eqb (p_inst q) (p_inst p) then (q, p_now p + 2 * p_ttl p) :: t else (q, e) :: abs_insert t p
   end.
 Proof. intros [|[q e] t] p; reflexivity. Qed.
+
+Theorem C15_any_batches : forall service me ttl0 bs now',
+  Forall (batch_ok service) bs ->
+  known_services (receive_batches bs (fresh_store service me ttl0)) service now' =
+  List.concat (map (fun x : gentry => inst_of_group service (live now' (snd x))) (g_view bs)).
+Proof. exact known_after_any_batches. Qed.
+Check C15_any_batches : forall service me ttl0 bs now',
+  Forall (batch_ok service) bs ->
+  known_services (receive_batches bs (fresh_store service me ttl0)) service now' =
+  List.concat (map (fun x : gentry => inst_of_group service (live now' (snd x))) (g_view bs)).
+Print Assumptions C15_any_batches.
+(* the view, spelled out *)
+Example C15_batch_view_is : forall st b, g_insert st b =
+  match st with
+  | [] => [(b_inst b, ins_all (b_now b) (b_recs b) [])]
+  | (i, m) :: t => if bytes_eqb i (b_inst b) then (i, ins_all (b_now b) (b_recs b) m) :: t else (i, m) :: g_insert t b
+  end.
+Proof. intros [|[i m] t] b; reflexivity. Qed.
+Example C15_record_insert_is : forall now recs m, ins_all now recs m =
+  fold_left (fun m0 r => map_insert m0 r (Cached (now + 2 * (if rcf r then 1 else rttl r)))) recs m.
+Proof. reflexivity. Qed.
+(* a changed re-announcement on concrete values: a third address and a shorter TTL; the merged instance is reported until the
+   NEW expiry (tick 170), although the first announcement alone would have lasted until tick 250 *)
+Example C15_changed_reannouncement :
+  Forall (batch_ok sample_service) sample_batches /\
+  let merged := {| i_name := map bN [112; 49]; i_ips := i_ips sample_instance ++ [(false, 167772162)]; i_ports := [8080];
+                   i_attrs := rev (i_attrs sample_instance) |} in
+  let st := receive_batches sample_batches (fresh_store sample_service [map bN [109; 101]; map bN [95; 115]] 120) in
+  known_services st sample_service 100 = [merged] /\ known_services st sample_service 169 = [merged] /\
+  known_services st sample_service 170 = [] /\ known_services st sample_service 249 = [].
+Proof. split; [exact sample_batches_ok | exact changed_reannouncement]. Qed.
 
 Theorem C15_ingest_filter : forall service me p r,
   In r (ingest_filter service me p) <->
